@@ -15,53 +15,53 @@ From Coq Require Import ZArith List Lia.
 Import ListNotations.
 Open Scope Z_scope.
 
-Definition limit_ns : Z := 2 ^ 64 * 10 ^ 9.
-Definition limit_ms : Z := 2 ^ 64 * 1000.
+Definition ms_limit_ns : Z := 2 ^ 64 * 10 ^ 9.
+Definition ms_limit_ms : Z := 2 ^ 64 * 1000.
 
-Record strategy := { s_min : Z; s_max : Z }.
+Record ms_strategy := { ms_s_min : Z; ms_s_max : Z }.
 
-(* struct ExponentialBackOff { strategy, last: Option<Duration> } *)
-Record backoff := { b_strategy : strategy; b_last : option Z }.
+(* struct ExponentialBackOff { ms_strategy, last: Option<Duration> } *)
+Record ms_backoff := { ms_b_strategy : ms_strategy; ms_b_last : option Z }.
 
-Definition backoff_new (s : strategy) : backoff := {| b_strategy := s; b_last := None |}.
+Definition ms_backoff_new (s : ms_strategy) : ms_backoff := {| ms_b_strategy := s; ms_b_last := None |}.
 
-Definition checked_double (limit x : Z) : option Z :=
+Definition ms_checked_double (limit x : Z) : option Z :=
   if 2 * x <? limit then Some (2 * x) else None.
 
 (* x.checked_mul(2).unwrap_or(max).min(max) *)
-Definition next_delay (limit max x : Z) : Z :=
-  Z.min (match checked_double limit x with Some y => y | None => max end) max.
+Definition ms_next_delay (limit max x : Z) : Z :=
+  Z.min (match ms_checked_double limit x with Some y => y | None => max end) max.
 
-Definition on_success (b : backoff) : backoff := {| b_strategy := b_strategy b; b_last := None |}.
+Definition ms_on_success (b : ms_backoff) : ms_backoff := {| ms_b_strategy := ms_b_strategy b; ms_b_last := None |}.
 
-Definition on_failure (limit : Z) (b : backoff) : backoff * Z :=
-  match b_last b with
+Definition ms_on_failure (limit : Z) (b : ms_backoff) : ms_backoff * Z :=
+  match ms_b_last b with
   | Some x =>
-      let next := next_delay limit (s_max (b_strategy b)) x in
-      ({| b_strategy := b_strategy b; b_last := Some next |}, next)
+      let ms_next := ms_next_delay limit (ms_s_max (ms_b_strategy b)) x in
+      ({| ms_b_strategy := ms_b_strategy b; ms_b_last := Some ms_next |}, ms_next)
   | None =>
-      let m := s_min (b_strategy b) in
-      ({| b_strategy := b_strategy b; b_last := Some m |}, m)
+      let m := ms_s_min (ms_b_strategy b) in
+      ({| ms_b_strategy := ms_b_strategy b; ms_b_last := Some m |}, m)
   end.
 
-(* the delays returned by n consecutive failures *)
-Fixpoint failures (limit : Z) (b : backoff) (n : nat) : list Z * backoff :=
+(* the delays returned by n consecutive ms_failures *)
+Fixpoint ms_failures (limit : Z) (b : ms_backoff) (n : nat) : list Z * ms_backoff :=
   match n with
   | O => ([], b)
-  | S k => let '(b1, d) := on_failure limit b in
-           let '(ds, b2) := failures limit b1 k in (d :: ds, b2)
+  | S k => let '(b1, d) := ms_on_failure limit b in
+           let '(ds, b2) := ms_failures limit b1 k in (d :: ds, b2)
   end.
 
-(* closed form: the n-th delay (n = 0 is the first) of an uninterrupted run of failures *)
-Fixpoint nth_delay (limit min max : Z) (n : nat) : Z :=
+(* closed form: the n-th delay (n = 0 is the first) of an uninterrupted ms_run of ms_failures *)
+Fixpoint ms_nth_delay (limit min max : Z) (n : nat) : Z :=
   match n with
   | O => min
-  | S k => next_delay limit max (nth_delay limit min max k)
+  | S k => ms_next_delay limit max (ms_nth_delay limit min max k)
   end.
 
-(* what the engine prints for `backoff <min> <max> <n>`: n delays, then the first delay after
-   on_success *)
-Definition run_backoff (limit min max : Z) (n : nat) : list Z * Z :=
-  let b := backoff_new {| s_min := min; s_max := max |} in
-  let '(ds, b1) := failures limit b n in
-  (ds, snd (on_failure limit (on_success b1))).
+(* what the engine prints for `ms_backoff <min> <max> <n>`: n delays, then the first delay after
+   ms_on_success *)
+Definition ms_run_backoff (limit min max : Z) (n : nat) : list Z * Z :=
+  let b := ms_backoff_new {| ms_s_min := min; ms_s_max := max |} in
+  let '(ds, b1) := ms_failures limit b n in
+  (ds, snd (ms_on_failure limit (ms_on_success b1))).
